@@ -48,7 +48,8 @@ class ModSpec:
         self.deps = []          # names of required modules (in order)
 
     def public_names(self):
-        names = set(self.values) | set(self.funcs) | {"bump", "peek", "probe"}
+        names = set(self.values) | set(self.funcs) | {
+            "bump", "peek", "probe", "pv", "setpv", "getpv"}
         for d in self.deps:
             names.add("via_" + d)
         return names
@@ -67,6 +68,9 @@ class ModSpec:
         lines.append("def bump() do _state += 1; _state end;")
         lines.append("def peek() _state;")
         lines.append("def probe() importer_var;")
+        lines.append("def pv = 0;")
+        lines.append("def setpv(n) do pv = n; pv end;")
+        lines.append("def getpv() pv;")
         for d in self.deps:
             lines.append(f"def via_{d}() _d_{d}->bump();")
         return "\n".join(lines) + "\n"
@@ -120,6 +124,7 @@ class ModuleModel:
         self.cycle = cycle_members
         self.loaded = []        # in load-start order
         self.state = {}
+        self.pv = {}            # current value of the public variable pv
 
     def load(self, name, out, stack=None):
         """Simulate loading; appends markers to out; raises Cycle.  Modules
@@ -138,6 +143,7 @@ class ModuleModel:
             stack.pop()
         self.loaded.append(name)
         self.state[name] = 0
+        self.pv[name] = 0
 
 
 class Cycle(Exception):
@@ -166,7 +172,8 @@ def run_session(mods, cycle_members, steps, use_path):
             lst.addItem(cv.ValueString(moddir))
             it.base_environment.put("checkerlang_module_path", lst)
         model = ModuleModel(mods, cycle_members)
-        bound = {}      # importer name -> ("module", m) | ("value", m, n) | ("func", m, n)
+        bound = {}      # importer name -> ("module", m) | ("sym", m, n)
+        poked = set()   # module-object bindings the importer added a member to
 
         def run(src):
             out = io.StringIO()
@@ -288,17 +295,66 @@ def run_session(mods, cycle_members, steps, use_path):
             elif form == "unqualified":
                 for n in spec.public_names():
                     bound[n] = ("sym", mname, n)
+            # a fresh binding exposes the module's definitions as they are now
+            fresh = None
+            if form == "plain":
+                fresh = mname
+            elif form == "as":
+                fresh = step[2]
+            if fresh is not None:
+                r = run(f"[{fresh}->pv, {fresh}->getpv()]")
+                cur = model.pv[mname]
+                if r[:2] != ("value", [cur, cur]):
+                    return fail("fresh-binding-stale-value",
+                                f"right after {src}: [{fresh}->pv, "
+                                f"{fresh}->getpv()] = {r[:2]}, the module's "
+                                f"pv is {cur}")
+                if fresh in poked:
+                    poked.discard(fresh)
+            elif form == "import":
+                for n, a in step[2]:
+                    if n == "pv":
+                        r = run(a or n)
+                        if r[:2] != ("value", model.pv[mname]):
+                            return fail("fresh-binding-stale-value",
+                                        f"after {src}: {a or n} = {r[:2]}, "
+                                        f"the module's pv is "
+                                        f"{model.pv[mname]}")
+            elif form == "unqualified":
+                r = run("pv")
+                if r[:2] != ("value", model.pv[mname]):
+                    return fail("fresh-binding-stale-value",
+                                f"after {src}: pv = {r[:2]}, the module's pv "
+                                f"is {model.pv[mname]}")
             # exercise the bindings of this module
             for bname, b in list(bound.items()):
                 if b[1] != mname:
                     continue
                 if b[0] == "module":
                     r = run(f"sorted(ls({bname}))")
-                    want = sorted(spec.public_names())
+                    want = sorted(spec.public_names() |
+                                  ({"extra_q"} if bname in poked else set()))
                     if r[0] != "value" or r[1] != want:
                         return fail("module-members",
                                     f"ls({bname}) = {r[:2]}, public names of "
                                     f"{mname} are {want}")
+                    if bname not in poked:
+                        r = run(f"sorted(ls({bname}))")
+                    # the module re-assigns a public variable
+                    newpv = 10 + len(text)
+                    text.append(f"{bname}->setpv({newpv})")
+                    r = run(f"{bname}->setpv({newpv})")
+                    model.pv[mname] = newpv
+                    r = run(f"{bname}->getpv()")
+                    if r[:2] != ("value", newpv):
+                        return fail("module-state",
+                                    f"{bname}->getpv() -> {r[:2]} after "
+                                    f"setpv({newpv})")
+                    # the importer adds a member to ITS module object
+                    if len(text) % 3 == 0:
+                        text.append(f"{bname}->extra_q = 7")
+                        run(f"{bname}->extra_q = 7")
+                        poked.add(bname)
                     text.append(f"{bname}->bump()")
                     r = run(f"{bname}->bump()")
                     model.state[mname] += 1
@@ -347,6 +403,8 @@ def run_session(mods, cycle_members, steps, use_path):
                         if r[:2] != ("value", "E"):
                             return fail("module-sees-importer-variable",
                                         f"{bname}() -> {r[:2]}")
+                    elif n in ("pv", "setpv", "getpv"):
+                        pass
                     elif n in spec.values:
                         r = run(bname)
                         if r[:2] != ("value", spec.values[n]):
